@@ -12,7 +12,7 @@ def check(ctx):
     seeds = os.path.join(ctx.scratch, "c03_seeds.ndjson")
     # valid bodies per version / dialect from the specification's layouts (the captures only know the 2013 / JS forms)
     lay = os.path.join(ctx.scratch, "c03_layout_cases.ndjson")
-    ctx.tlc("MC_Layouts", constants={"MaxList": 2}, env={"VERIF_OUT": lay}, workers=4)
+    ctx.tlc("MC_Layouts", constants={"MaxList": 2}, env={"VERIF_OUT": lay}, workers=1)
     ctx.vh_ok(["c03-seeds", seeds, lay])
     all_seeds = vlib.read_nd(seeds, quoted=False)
     if not thorough:
